@@ -10,7 +10,7 @@ NOT_APPLICABLE["C03"] = ("relation between an arbitrary dynamic call tree and an
                          "evolution of handler collections and accumulator forks; no sound static abstraction in reach bounds embeddings")
 NOT_APPLICABLE["C07"] = ("quantifies over call trees and runtime data flow through Total accumulator forks; its only structural clause "
                          "(exit hook on every way out) is decided under C06 rule R06.1")
-SOURCE_COMMITS = ["746fd1a fix: undo the instrumentation counts when the new variant cannot be installed", "798314f fix: untool the functions of a selector that autotool ends up refusing", "f8603ba fix: roll back the tooling of earlier selectors when a later one is refused", "e29e1a9 fix: mark the cached instrumented variants as helper functions", "ceee686 fix: match the receiver of a bound-method selector by identity"]
+SOURCE_COMMITS = ["746fd1a fix: undo the instrumentation counts when the new variant cannot be installed", "798314f fix: untool the functions of a selector that autotool ends up refusing", "f8603ba fix: roll back the tooling of earlier selectors when a later one is refused", "e29e1a9 fix: mark the cached instrumented variants as helper functions", "ceee686 fix: match the receiver of a bound-method selector by identity", "f362961 fix: serialize instrumentation changes between threads"]
 
 claim("C12", "P", "AST normal-form comparison tables + wrapper-guard agreement (syntactic dataflow)",
       "Decides structural clauses only: each stock comparison predicate is the single comparison its name states (holds for all "
@@ -53,3 +53,10 @@ claim("C13", "P", "taint analysis from the bound method's receiver to hash / equ
       "Per-call delivery across populations of instances is a runtime fact and is not decided.",
       "Trusted: Python semantics of dict membership (hash + ==) and of default __eq__/__hash__ (identity).",
       "DESIGN.md section 6, C13")
+
+claim("C08", "P", "lockset analysis over the resolved call graph (locks held on every call path to each shared-state write), who-may-write / immutability rules for context-local handler state",
+      "Decides a sufficient locking discipline and the locality of handler state, for every schedule at once: every write, read-modify-write and check-then-act on "
+      "process-shared instrumentation state reachable from activate / call entry / deactivate holds one common lock on every call path; handlers live only in a ContextVar, "
+      "published collections are immutable, templates are forked per call. It does not explore interleavings, and a correct lock-free redesign would be flagged.",
+      "Trusted: CPython atomicity of single dict/set stores and itertools.count; exemption table EXEMPT in sa/rules/c08.py (one reason per symbol). Concurrent callers during transform()'s exec window are not covered.",
+      "DESIGN.md section 6, C08")
